@@ -90,6 +90,21 @@ def main(tier):
     hist = regtrace.random_histories(rng, 2000 if thorough else 400, 60 if thorough else 40, queries=False)
     regtrace.validate(rep, bd, hist, "seeded deep registration histories with the projected registry after every call", "deep")
     rep.cov["binding_self_test"] = regtrace.self_test(bd, hist)
+    # the repository's own test-suite as a source of histories: every UnitDatabase instance a test creates is one recorded history
+    # (registrations, rejected registrations, top-level queries; projected registry after each call while it is small)
+    sev, sinfo = regtrace.suite_history(bd)
+    if not thorough:
+        by = {}
+        for e in sev:
+            by.setdefault(e["tid"], []).append(e)
+        big = sorted((t for t in by if len(by[t]) > 300), key=lambda t: (-len(by[t]), t))
+        keep = set(t for t in by if len(by[t]) <= 300) | set(big[:3]) | set(rng.sample(big[3:], min(3, len(big[3:]))))
+        sev = [e for e in sev if e["tid"] in keep]
+        sinfo["validated_histories"] = len(keep)
+    if len(sev) < 1000:
+        raise common.MachineryError("the test-suite produced only %d registry events" % len(sev))
+    regtrace.validate(rep, bd, sev, "registry histories recorded while the repository's own test-suite runs", "suite")
+    rep.cov["test_suite_histories"] = sinfo
     rep.count(evaluations=stats["replayed"], nontrivial=stats["replayed"], traces=stats["replayed"])
     rep.cov["replayed_by_last_op"] = stats["ops"]
     rep.cov["exhaustive"] = False
